@@ -29,6 +29,7 @@ FLAT_SCRIPT = r'''
 import sys, hashlib, warnings, io, contextlib
 warnings.simplefilter('ignore')
 STYLE = sys.argv[1]; REPO = sys.argv[2]
+import json
 import numpy as np, quaternion
 if STYLE == 'flat':
     sys.path.insert(0, REPO + '/quatica'); sys.path.insert(0, REPO)
@@ -50,7 +51,14 @@ rs = np.random.RandomState(7)
 def Q(m, n): return quaternion.as_quat_array(rs.randint(-3, 4, size=(m, n, 4)).astype(float))
 A = Q(4, 3); B = Q(3, 2); Sq = Q(3, 3); Hm = Sq + np.transpose(np.conjugate(Sq)); b = Q(3, 1)
 h = hashlib.sha256()
+digs = []; depth = [0]
 def put(x):
+    depth[0] += 1
+    try: _put(x)
+    finally:
+        depth[0] -= 1
+        if depth[0] == 0: digs.append(h.hexdigest()[:16])
+def _put(x):
     if isinstance(x, (tuple, list)):
         for t in x: put(t)
     elif isinstance(x, dict):
@@ -64,7 +72,30 @@ with contextlib.redirect_stdout(io.StringIO()):
     put(S.NewtonSchulzPseudoinverse(max_iter=5).compute(A)[0]); put(S.QGMRESSolver(tol=1e-10).solve(Sq, b)[0])
     np.random.seed(3); put(S.RandomizedSketchProjectPseudoinverse(block_size=2, max_iter=4).compute(A)[0])
     put(S.CGNEQSolver(max_iter=5).compute(A)[0]); put(U.det(Hm, 'Moore')); put(U.quat_null_space(Q(2, 4)))
-print(h.hexdigest())
+    # every solver configuration and the remaining decomposition / iteration entry points (answers AND info records)
+    put(S.QGMRESSolver(tol=1e-10, preconditioner='left_lu').solve(Sq, b)); put(S.QGMRESSolver(tol=1e-10).solve(Sq, b)[1])
+    put(S.HigherOrderNewtonSchulzPseudoinverse(max_iter=3).compute(A)[0]); put(S.NewtonSchulzPseudoinverse(max_iter=3, compute_residuals=False).compute(A)[0])
+    np.random.seed(4); put(S.RandomizedSketchProjectPseudoinverse(block_size=2, max_iter=3, column_solver='spd').compute(A)[0])
+    np.random.seed(4); put(S.RandomizedSketchProjectPseudoinverse(block_size=2, max_iter=3).compute(np.transpose(np.conjugate(A)))[0])
+    for _nm in ('HybridRSPNewtonSchulz',):
+        if hasattr(S, _nm):
+            np.random.seed(5); put(getattr(S, _nm)(max_iter=3).compute(A)[0])
+    if STYLE == 'flat':
+        from decomp import schur as SC, tridiagonalize as TR
+        from decomp.qsvd import rand_qsvd, pass_eff_qsvd, classical_qsvd
+    else:
+        from quatica.decomp import schur as SC, tridiagonalize as TR
+        from quatica.decomp.qsvd import rand_qsvd, pass_eff_qsvd, classical_qsvd
+    import importlib
+    TRm = importlib.import_module(('' if STYLE == 'flat' else 'quatica.') + 'decomp.tridiagonalize')
+    put(TRm.tridiagonalize(Hm)); put(classical_qsvd(A, 2))
+    np.random.seed(6); put(rand_qsvd(A, 2, oversample=1, n_iter=1)); np.random.seed(6); put(pass_eff_qsvd(A, 2, oversample=1, n_passes=3))
+    for _v in ('rayleigh', 'implicit', 'aed', 'ds'): put(SC.quaternion_schur_unified(Sq, variant=_v, max_iter=4)[:2])
+    put(SC.quaternion_schur(Sq, max_iter=4)[:2]); put(SC.quaternion_schur_experimental(Sq, max_iter=4)[:2])
+    np.random.seed(8); put(U.power_iteration(Hm, max_iterations=5, return_eigenvalue=True)); put(U.power_iteration_nonhermitian(Sq, max_iterations=4, seed=1)[:2])
+    for _o in (1, np.inf, 'fro', 2): put(U.matrix_norm(A, _o))
+    put(U.quat_null_left(A)); put(U.det(Sq, 'Dieudonne')); put(U.quaternion_to_complex_adjoint(Sq)); put(U.Realp(*[quaternion.as_float_array(B)[..., c] for c in range(4)]))
+print(json.dumps(digs))
 '''
 
 def run(ctx):
@@ -193,8 +224,14 @@ def run(ctx):
     for style in ('flat', 'package'):
         p = subprocess.run(['/venv/bin/python', '-c', FLAT_SCRIPT, style, cm.REPO], capture_output=True, text=True, env={**os.environ, 'PYTHONPATH': '', 'PYTHONHASHSEED': '0'})
         outs[style] = p.stdout.strip().split('\n')[-1] if p.returncode == 0 else 'ERROR: ' + p.stderr.strip()[-300:]
-    if outs['flat'].startswith('ERROR') or outs['package'].startswith('ERROR') or outs['flat'] != outs['package']:
-        viol('C14:import-styles', 'package import and flat-module import give different results', outs, outs)
+    if outs['flat'].startswith('ERROR') or outs['package'].startswith('ERROR'):
+        viol('C14:import-styles', 'package import or flat-module import fails', outs, outs)
+    elif outs['flat'] != outs['package']:
+        import re as _re
+        calls_src = _re.findall(r'put\((?:[^()]|\([^()]*(?:\([^()]*\)[^()]*)*\))*\)', FLAT_SCRIPT.split('with contextlib.redirect_stdout')[1])
+        df, dp = json.loads(outs['flat']), json.loads(outs['package'])
+        first = next((i for i, (a, b) in enumerate(zip(df, dp)) if a != b), min(len(df), len(dp)))
+        viol('C14:import-styles', f'package import and flat-module import give different results; first difference at call #{first}: {calls_src[first] if first < len(calls_src) else "?"}', {'call_index': first, 'call': calls_src[first] if first < len(calls_src) else None}, {'flat': df[first:first + 1], 'package': dp[first:first + 1]})
     ctx.count(('import-styles',), True)
     ctx.cov['histories'] = nh; ctx.cov['exhaustive'] = True; ctx.cov['traces_validated_against_impl'] = nh
     ctx.cov['reseed_sites'] = info['reseed_sites'] if info else None
